@@ -17,7 +17,7 @@ RULE = ('Master-level histories as in C09; during every init_schedule() and resc
 ASSUMPTIONS = ['in-memory ZooKeeper fake; a crash is modelled as: no further operation of the old master session is applied',
                'fork()ed children (copy-on-write snapshot of the fake and the harness); children disarm inherited hooks',
                'virtual clock']
-BUDGET = {'quick': (13, 60.0), 'thorough': (130, 300.0)}
+BUDGET = {'quick': (26, 60.0), 'thorough': (130, 300.0)}
 REQUIRED_REACH = {'*': ['cuts', 'cuts_inside_delete_create_cycle', 'master_restarts', 'cycles_between_operator_writes_with_events_and_writes']}
 
 
